@@ -422,6 +422,7 @@ def rule_08_7(rep, fx):
               'an evicted sample is not removed from both the instance index and the sample store (%s): it stays available, or stays counted' % rm, b.where())
 
     rule_08_8(rep, fx)
+    rule_sort_before_limit(rep, fx, 'R08.9')
 
 
 def rule_08_8(rep, fx):
@@ -535,3 +536,58 @@ def rule_08_8(rep, fx):
     want = {'Read': (True, 'read'), 'NotRead': (False, 'read'), 'New': (True, 'new'), 'NotNew': (False, 'new')}
     rep.check(okm == want, 'R08.8', 'make_sample_info/states', 'Read/NotRead by sample_has_been_read, New/NotNew by generation total > last accessed total',
               'make_sample_info reports sample / view state by other tests than the selector uses (%s)' % okm, m.where())
+
+
+SELECTING_ADAPTORS = ('iter', 'values', 'keys', 'into_iter', 'filter', 'filter_map', 'map', 'copied', 'cloned', 'collect', 'flat_map', 'flatten', 'chain', 'inspect', 'by_ref')
+
+
+def rule_sort_before_limit(rep, fx, rid):
+    """Shared by C08 (R08.9) and C01 (R01.8): a bounded read returns the lowest sequence numbers, not the earliest arrivals: nothing limits the selection before it is
+    sorted, and the callers cut the sorted vector."""
+    rep.rule(rid, 'limit after order: in select_keys_for_access / select_instance_keys_for_access the vector handed to sort_by_sequence_number is collected from an iterator chain of '
+                  'selecting adaptors only (no take / skip / take_while / rev / step_by before the sort), and the DataReader applies max_samples to the sorted vector')
+    for nm in ('select_keys_for_access', 'select_instance_keys_for_access'):
+        b = fx.find('dds::with_key::datasample_cache::DataSampleCache::' + nm)
+        rep.analysed(b)
+        og = Origins(b, summaries=False)
+        n = 0
+        for bb, t in b.calls():
+            if not callee_res(t).endswith('sort_by_sequence_number'):
+                continue
+            n += 1
+            v = og.of_operand(t['args'][1], bb, 'term')
+            bad = []
+
+            def walk(x, d=0):
+                if d > 30 or not isinstance(x, tuple):
+                    return
+                if x and x[0] == 'call' and ('iter::' in x[1] or 'Iterator' in x[1] or 'BTreeMap::' in x[1] or 'BTreeSet::' in x[1] or 'Vec' in x[1]):
+                    last = x[1].rsplit('::', 1)[-1]
+                    if last not in SELECTING_ADAPTORS and last not in ('get', 'new', 'deref', 'deref_mut', 'as_mut', 'as_ref'):
+                        bad.append(last)
+                    for a in x[2][:1]:
+                        walk(a, d + 1)
+                elif x and x[0] in ('mutated', 'field', 'variant', 'phi'):
+                    for y in x[1:]:
+                        if isinstance(y, tuple):
+                            walk(y, d + 1)
+            walk(v)
+            rep.check(not bad, rid, '%s/unlimited-before-sort' % nm, 'sorted vector = collect of a purely selecting iterator chain',
+                      '%s limits or reorders the selection (%s) before sorting by sequence number: a bounded read (take_next_sample, take(n), the async streams) returns the earliest '
+                      "received samples instead of the lowest sequence numbers, so a writer's samples come out of order" % (nm, ', '.join(sorted(set(bad)))), b.where(bb))
+        if n == 0:
+            rep.violation(rid, '%s/unlimited-before-sort' % nm, '%s does not sort its selection' % nm, b.where())
+    # callers: max_samples is applied by truncate on the returned (sorted) vector
+    n_tr = 0
+    for b in fx.bodies:
+        if not b.key.startswith('dds::with_key::datareader::DataReader::') or b.kind not in ('fn', 'assoc_fn'):
+            continue
+        og = None
+        for bb, t in b.calls():
+            if strip_generics(callee_res(t)).endswith('Vec::truncate'):
+                og = og or Origins(b, summaries=True)
+                v = og.of_operand(t['args'][0], bb, 'term')
+                if term_has(v, lambda x: x[0] == 'call' and x[1].endswith(('select_keys_for_access', 'select_instance_keys_for_access'))):
+                    n_tr += 1
+    rep.check(n_tr >= 6, rid, 'DataReader/truncate-after-select', '%d bounded accesses truncate the sorted selection' % n_tr,
+              'only %d of the bounded DataReader accesses cut the selection after it was sorted (6 on the reference tree)' % n_tr, '')
